@@ -364,7 +364,12 @@ def c03(ctx):
                          lexer={"alphabets": ["lit", "kw1", "kw2", "kw3", "ops"], "k_quick": 3, "k_thorough": 5})
 
 def c04(ctx):
-    return grammar_check(ctx, {"value"}, {"*": 5}, {"*": 6, "f64": 7}, {"assignments": 3, "event_every": 100, "event_cap": 2000, "nontrivial_min_ops": 2})
+    # second pass: in eval_i64 (and on eval_number's Integers) two groupings of + - * differ only in whether an intermediate
+    # result overflows, so the tree-revealing operands there are the boundary values
+    return grammar_check(ctx, {"value", "err_on_defined", "ok_on_semantic_err"}, {"*": 5}, {"*": 6, "f64": 7},
+                         [{"assignments": 3, "event_every": 100, "event_cap": 2000, "nontrivial_min_ops": 2},
+                          {"assignments": 1, "boundary_pool": True, "full_placeholders": True, "max_assign": 150 if ctx.quick() else 3000, "event_every": 1000, "event_cap": 500,
+                           "nontrivial_min_ops": 2, "only_models": ["i64", "num"]}])
 
 def c12(ctx):
     return grammar_check(ctx, {"meta_jux", "ok_on_reject"}, {"*": 5}, {"*": 6, "f64": 7},
